@@ -561,6 +561,43 @@ def _uniformity_shape(flow, g):
     """Recognise `len(set(diff)) != 1` / `> 1` / `min != max`; returns
     'ok: ...', 'WRONG: ...' or 'UNRECOGNISED'."""
     e, neg = g.expr, g.negated
+    # (d != d[0]).any()  /  not (d == d[0]).all()  somewhere in the (expanded) test: decide by three-valued evaluation
+    # whether "some step differs from the first" forces the raise
+    ex = flow.expand(e)
+
+    def differs_any(n):
+        """+1: true iff some element differs from the first; -1: true iff all equal the first; 0: neither"""
+        if isinstance(n, ast.Call) and isinstance(n.func, ast.Attribute) and n.func.attr in ("any", "all") and not n.args \
+                and isinstance(n.func.value, ast.Compare) and len(n.func.value.ops) == 1:
+            c = n.func.value
+            l, r = c.left, c.comparators[0]
+            if isinstance(r, ast.Subscript) and isinstance(r.slice, ast.Constant) and r.slice.value == 0 and ast.dump(r.value) == ast.dump(l) and "diff" in ast.unparse(l):
+                if isinstance(c.ops[0], ast.NotEq) and n.func.attr == "any":
+                    return 1
+                if isinstance(c.ops[0], ast.Eq) and n.func.attr == "all":
+                    return -1
+        return 0
+
+    marks = [n for n in ast.walk(ex) if differs_any(n)]
+    if marks:
+        def ev(n):
+            d = differs_any(n)
+            if d:
+                return d == 1          # evaluated under "some step differs"
+            if isinstance(n, ast.UnaryOp) and isinstance(n.op, ast.Not):
+                v = ev(n.operand)
+                return None if v is None else not v
+            if isinstance(n, ast.BoolOp):
+                vals = [ev(v) for v in n.values]
+                if isinstance(n.op, ast.And):
+                    return False if False in vals else (None if None in vals else True)
+                return True if True in vals else (None if None in vals else False)
+            return None
+        v = ev(ex)
+        if v is None:
+            return "UNRECOGNISED"
+        raises = v != neg
+        return "ok: raises when some step differs from the first" if raises else "WRONG: does not raise when a step differs from the first"
     if isinstance(e, ast.Compare) and len(e.ops) == 1:
         l, op, r = e.left, type(e.ops[0]), e.comparators[0]
         lt, rt = ast.unparse(flow.expand(l)), ast.unparse(flow.expand(r))
